@@ -269,11 +269,16 @@ def find_paren_match(string: str) -> int:
     29
     """
     paren_count = 1
-    quote_state = {"'": False, '"': False}
+    # The quote that opened the literal being read: the other quote character
+    # is ordinary text inside it (`"can't"`)
+    quote = ""
     for i, char in enumerate(string):
-        if char in quote_state:
-            quote_state[char] = not quote_state[char]
-        if any(quote_state.values()):
+        if quote:
+            if char == quote:
+                quote = ""
+            continue
+        if char in ("'", '"'):
+            quote = char
             continue
 
         if char == "(":
